@@ -945,6 +945,16 @@ fn entry_for(rng: &mut Rng64, depth: Option<u32>) -> (Entry, usize, usize) {
     }
 }
 
+/// Search seeds are mostly random, sometimes one of the extremes.
+fn pick_seed(rng: &mut Rng64) -> u64 {
+    match rng.below(20) {
+        0 => 0,
+        1 => u64::MAX,
+        2 => 1,
+        _ => rng.next(),
+    }
+}
+
 fn light_depth(rng: &mut Rng64, workers: usize) -> u32 {
     if workers >= 8 {
         1 + rng.below(3) as u32
@@ -980,7 +990,7 @@ pub fn generate(ctx: &Ctx, prop: &str, rng: &mut Rng64, thorough: bool, index: u
                 if rng.chance(300) {
                     faults.push(Fault { kind: FaultKind::StopAtGlobalNode, at: 20 + rng.below(1500), times: 1 });
                 }
-                case.searches.push(SearchSpec { fen: p.fen(), depth: Some(d), seed: rng.next(), entry, rayon_threads: rt, fresh: false, history: vec![], faults });
+                case.searches.push(SearchSpec { fen: p.fen(), depth: Some(d), seed: pick_seed(rng), entry, rayon_threads: rt, fresh: false, history: vec![], faults });
                 if i + 1 < n {
                     let k = 1 + rng.below(2) as u32;
                     let q = corpus::random_play(rng, &p, k).0;
@@ -1042,7 +1052,7 @@ pub fn generate(ctx: &Ctx, prop: &str, rng: &mut Rng64, thorough: bool, index: u
                     // a Stop that is already there when the search thread comes to life
                     faults.push(Fault { kind: FaultKind::StopAtStep, at: rng.below(3), times: 1 });
                 }
-                case.searches.push(SearchSpec { fen: q.fen(), depth: Some(depth), seed: rng.next(), entry, rayon_threads: rt, fresh: false, history: vec![], faults });
+                case.searches.push(SearchSpec { fen: q.fen(), depth: Some(depth), seed: pick_seed(rng), entry, rayon_threads: rt, fresh: false, history: vec![], faults });
             }
         }
         "C04" => {
@@ -1116,7 +1126,7 @@ pub fn generate(ctx: &Ctx, prop: &str, rng: &mut Rng64, thorough: bool, index: u
                     history: vec![],
                     faults,
                 });
-                case.searches.push(SearchSpec { fen: pos.fen(), depth: Some(2), seed: rng.next(), entry: Entry::Sync { workers: Some(1) }, rayon_threads: 1, fresh: false, history: vec![], faults: vec![] });
+                case.searches.push(SearchSpec { fen: pos.fen(), depth: Some(2), seed: pick_seed(rng), entry: Entry::Sync { workers: Some(1) }, rayon_threads: 1, fresh: false, history: vec![], faults: vec![] });
                 return case;
             }
             let depth = if heavy { None } else { Some(*rng.pick(&[1u32, 1, 2, 2, 3, 3, 4])) };
@@ -1217,12 +1227,12 @@ pub fn generate(ctx: &Ctx, prop: &str, rng: &mut Rng64, thorough: bool, index: u
                     pick_position(ctx, rng)
                 };
                 let d0 = if endgame_heavy { 3 + rng.below(3) as u32 } else { 2 };
-                case.searches.push(SearchSpec { fen: q.fen(), depth: Some(d0), seed: rng.next(), entry: Entry::Sync { workers: Some(1) }, rayon_threads: 1, fresh: false, history: vec![], faults: vec![] });
+                case.searches.push(SearchSpec { fen: q.fen(), depth: Some(d0), seed: pick_seed(rng), entry: Entry::Sync { workers: Some(1) }, rayon_threads: 1, fresh: false, history: vec![], faults: vec![] });
             }
-            case.searches.push(SearchSpec { fen: pos.fen(), depth, seed: rng.next(), entry, rayon_threads: rt, fresh: false, history: vec![], faults });
+            case.searches.push(SearchSpec { fen: pos.fen(), depth, seed: pick_seed(rng), entry, rayon_threads: rt, fresh: false, history: vec![], faults });
             // the returned artifact seeds one more search
             let q = if rng.chance(500) { pos.clone() } else { pick_position(ctx, rng) };
-            case.searches.push(SearchSpec { fen: q.fen(), depth: Some(2), seed: rng.next(), entry: Entry::Sync { workers: Some(1) }, rayon_threads: 1, fresh: false, history: vec![], faults: vec![] });
+            case.searches.push(SearchSpec { fen: q.fen(), depth: Some(2), seed: pick_seed(rng), entry: Entry::Sync { workers: Some(1) }, rayon_threads: 1, fresh: false, history: vec![], faults: vec![] });
         }
         "C06" if rng.chance(100) => {
             // mates in one by a special kind of move (double check, discovered check, promotion,
@@ -1231,7 +1241,7 @@ pub fn generate(ctx: &Ctx, prop: &str, rng: &mut Rng64, thorough: bool, index: u
             let (_, fen, _) = *rng.pick(corpus::SPECIAL_MATES);
             let w = *rng.pick(&[1usize, 1, 2, 4]);
             let (entry, rt) = if rng.chance(600) { (Entry::Sync { workers: Some(w) }, w) } else { (Entry::Public, w) };
-            case.searches.push(SearchSpec { fen: fen.to_string(), depth: Some(1 + rng.below(3) as u32), seed: rng.next(), entry, rayon_threads: rt, fresh: true, history: vec![], faults: vec![] });
+            case.searches.push(SearchSpec { fen: fen.to_string(), depth: Some(1 + rng.below(3) as u32), seed: pick_seed(rng), entry, rayon_threads: rt, fresh: true, history: vec![], faults: vec![] });
         }
         "C06" => {
             case.dims = *rng.pick(&[(8usize, 1024usize), (8, 64)]);
@@ -1282,7 +1292,7 @@ pub fn generate(ctx: &Ctx, prop: &str, rng: &mut Rng64, thorough: bool, index: u
                 (false, false) => if thorough && rt <= 2 { 9 } else { 7 },
             };
             depth = depth.min(max_d).max(1);
-            case.searches.push(SearchSpec { fen: pos.fen(), depth: Some(depth), seed: rng.next(), entry, rayon_threads: rt, fresh: true, history: vec![], faults: vec![] });
+            case.searches.push(SearchSpec { fen: pos.fen(), depth: Some(depth), seed: pick_seed(rng), entry, rayon_threads: rt, fresh: true, history: vec![], faults: vec![] });
         }
         "C17" if rng.chance(80) => {
             // not over-applied: recording positions that cannot occur in the search (siblings
@@ -1348,10 +1358,10 @@ pub fn generate(ctx: &Ctx, prop: &str, rng: &mut Rng64, thorough: bool, index: u
             let organic = rng.chance(500) && !succ.legal_moves().is_empty() || rng.chance(300);
             if organic {
                 let w0 = *rng.pick(&[1usize, 2]);
-                case.searches.push(SearchSpec { fen: succ.fen(), depth: Some(1 + rng.below(3) as u32), seed: rng.next(), entry: Entry::Sync { workers: Some(w0) }, rayon_threads: w0, fresh: true, history: vec![], faults: vec![] });
+                case.searches.push(SearchSpec { fen: succ.fen(), depth: Some(1 + rng.below(3) as u32), seed: pick_seed(rng), entry: Entry::Sync { workers: Some(w0) }, rayon_threads: w0, fresh: true, history: vec![], faults: vec![] });
             }
             let history = if organic { vec![] } else { vec![succ.fen()] };
-            case.searches.push(SearchSpec { fen: pos.fen(), depth: Some(depth), seed: rng.next(), entry: Entry::Sync { workers: Some(w) }, rayon_threads: w, fresh: !organic, history, faults: vec![] });
+            case.searches.push(SearchSpec { fen: pos.fen(), depth: Some(depth), seed: pick_seed(rng), entry: Entry::Sync { workers: Some(w) }, rayon_threads: w, fresh: !organic, history, faults: vec![] });
         }
         "C17" => {
             case.dims = *rng.pick(&[(8usize, 64usize), (8, 1024)]);
@@ -1433,7 +1443,7 @@ pub fn generate(ctx: &Ctx, prop: &str, rng: &mut Rng64, thorough: bool, index: u
                     first = false;
                 }
             }
-            case.searches.push(SearchSpec { fen: pos.fen(), depth: Some(depth), seed: rng.next(), entry, rayon_threads: rt, fresh: !organic, history, faults: vec![] });
+            case.searches.push(SearchSpec { fen: pos.fen(), depth: Some(depth), seed: pick_seed(rng), entry, rayon_threads: rt, fresh: !organic, history, faults: vec![] });
         }
         "C19" => {
             case.dims = *rng.pick(&[(8usize, 64usize), (8, 1024), (2, 8)]);
@@ -1449,7 +1459,7 @@ pub fn generate(ctx: &Ctx, prop: &str, rng: &mut Rng64, thorough: bool, index: u
             if entry == Entry::Public && rng.chance(300) {
                 faults.push(Fault { kind: FaultKind::DropSenderAtStep, at: rng.below(12), times: 1 });
             }
-            case.searches.push(SearchSpec { fen: p.fen(), depth: Some(depth), seed: rng.next(), entry, rayon_threads: rt, fresh: true, history: vec![], faults });
+            case.searches.push(SearchSpec { fen: p.fen(), depth: Some(depth), seed: pick_seed(rng), entry, rayon_threads: rt, fresh: true, history: vec![], faults });
         }
         _ => unreachable!(),
     }
